@@ -391,6 +391,36 @@ pub fn gen_case(seed: u64, idx: u64, corpus: &Corpus, prefixes: &[(usize, usize)
             // constructed types, each reachable from value assignments, DEFAULTs and constraints
             let k = 2 + rng.below(5);
             let mut s = headers(&mut rng);
+            if rng.chance(1, 2) {
+                // COMPONENTS OF graphs: 2..6 SEQUENCE / SET types whose member lists mix own members, COMPONENTS OF clauses
+                // (of any of the types, itself included), an extension marker at any position, additions and [[ ]] groups -
+                // the lexer and the linker each keep their own count of what a member list contains
+                for i in 0..k {
+                    let n = rng.below(5);
+                    let marker = if rng.chance(1, 2) { Some(rng.below(n + 1)) } else { None };
+                    let mut members: Vec<String> = vec![];
+                    for m in 0..n {
+                        if marker == Some(m) {
+                            members.push("...".into());
+                        }
+                        let j = rng.below(k);
+                        let after = marker.is_some_and(|x| m >= x);
+                        members.push(match rng.below(6) {
+                            0 | 1 => format!("COMPONENTS OF G{j}"),
+                            2 if after => format!("[[ g{i}x{m} INTEGER ]]"),
+                            3 if after => format!("[[ COMPONENTS OF G{j} ]]"),
+                            4 => format!("g{i}r{m} G{j} OPTIONAL"),
+                            _ => format!("g{i}m{m} {}", *rng.pick(&["INTEGER", "BOOLEAN", "NULL", "OCTET STRING OPTIONAL"])),
+                        });
+                    }
+                    if marker == Some(n) {
+                        members.push("...".into());
+                    }
+                    s.push_str(&format!("G{i} ::= {} {{ {} }}\n", if rng.chance(1, 4) { "SET" } else { "SEQUENCE" }, members.join(", ")));
+                }
+                s.push_str("END\n");
+                return Case { cat: "components-of-graph", input: s, origin: String::new() };
+            }
             for i in 0..k {
                 let j = rng.below(k);
                 let body = match rng.below(7) {
